@@ -1,0 +1,32 @@
+//go:build verif
+
+package channels
+
+import (
+	"sync/atomic"
+
+	datatransfer "github.com/filecoin-project/go-data-transfer/v2"
+)
+
+// VerifCaches returns the in-memory block-index high-water marks (queued, sent, received;
+// -1 = not cached) and the progress cache entry (ok=false when absent) of a channel
+// (verification hook, only built with -tags verif).
+func (c *Channels) VerifCaches(chid datatransfer.ChannelID) (queuedIdx, sentIdx, receivedIdx int64, limit, progress uint64, ok bool) {
+	read := func(evt datatransfer.EventCode) int64 {
+		c.blockIndexCache.lk.RLock()
+		defer c.blockIndexCache.lk.RUnlock()
+		v := c.blockIndexCache.values[cacheKey{evt, chid}]
+		if v == nil {
+			return -1
+		}
+		return atomic.LoadInt64(v)
+	}
+	queuedIdx, sentIdx, receivedIdx = read(datatransfer.DataQueued), read(datatransfer.DataSent), read(datatransfer.DataReceived)
+	c.progressCache.lk.RLock()
+	st, has := c.progressCache.values[chid]
+	c.progressCache.lk.RUnlock()
+	if has {
+		limit, progress, ok = st.dataLimit, atomic.LoadUint64(st.progress), true
+	}
+	return
+}
